@@ -7,6 +7,11 @@ from .ops import *
 from .state import Unsupported, PathEnd, fresh
 
 LIB = {}
+# functions of /repo that are not executed but replaced by an assumed contract (listed in the evidence of every check that uses one)
+REPO_MODELS = {
+    'util.SeriesContainer.wrap': (lambda ex, args, kwargs, node, st: args[0],
+                                  'SeriesContainer.wrap(s) presents the series of s unchanged through len() and indexing (A5)'),
+}
 
 
 def lib(name):
@@ -14,6 +19,13 @@ def lib(name):
         LIB[name] = f
         return f
     return deco
+
+
+@lib('multiprocessing.Pool')
+def mp_pool(ex, args, kwargs, node, st):
+    """A3: a process pool; only map / imap / imap_unordered are modelled (exec_call.me_pool_*)."""
+    ex.notes.add('assumed library contract: multiprocessing.Pool.map(fn, xs) == [fn(x) for x in xs], in order')
+    return PoolV()
 
 
 @lib('array.array')
